@@ -1,0 +1,111 @@
+//go:build verif
+
+// Contracts for instruction encoding, the compiler's code store and the VM handlers.
+// Comment-only; read by /verif/engine. See contracts_verif.go.
+
+package lua
+
+// ---------------------------------------------------------------------------
+// opcode.go: instruction encoding (exact 32-bit arithmetic)
+// ---------------------------------------------------------------------------
+
+//@ func opGetOpCode [C01 C07]
+//@ noraise
+//@ ensures  result == inst / 67108864 && 0 <= result && result <= 63
+//@ modifies nothing
+
+//@ func opGetArgA [C01 C07]
+//@ noraise
+//@ ensures  result == (inst / 262144) % 256 && 0 <= result && result <= 255
+//@ modifies nothing
+
+//@ func opGetArgB [C01 C07]
+//@ noraise
+//@ ensures  result == inst % 512 && 0 <= result && result <= 511
+//@ modifies nothing
+
+//@ func opGetArgC [C01 C07]
+//@ noraise
+//@ ensures  result == (inst / 512) % 512 && 0 <= result && result <= 511
+//@ modifies nothing
+
+//@ func opGetArgBx [C01 C07]
+//@ noraise
+//@ ensures  result == inst % 262144 && 0 <= result && result <= 262143
+//@ modifies nothing
+
+//@ func opGetArgSbx [C01 C07]
+//@ noraise
+//@ ensures  result == inst % 262144 - 131071
+//@ modifies nothing
+
+//@ func opSetOpCode [C01 C07]
+//@ requires 0 <= opcode && opcode <= 63
+//@ noraise
+//@ ensures  deref(inst) / 67108864 == opcode && deref(inst) % 67108864 == old(deref(inst)) % 67108864
+//@ modifies *inst
+
+//@ func opSetArgA [C01 C07]
+//@ requires 0 <= arg && arg <= 255
+//@ noraise
+//@ ensures  (deref(inst) / 262144) % 256 == arg && deref(inst) / 67108864 == old(deref(inst)) / 67108864 && deref(inst) % 262144 == old(deref(inst)) % 262144
+//@ modifies *inst
+
+//@ func opSetArgB [C01 C07]
+//@ requires 0 <= arg && arg <= 511
+//@ noraise
+//@ ensures  deref(inst) % 512 == arg && deref(inst) / 512 == old(deref(inst)) / 512
+//@ modifies *inst
+
+//@ func opSetArgC [C01 C07]
+//@ requires 0 <= arg && arg <= 511
+//@ noraise
+//@ ensures  (deref(inst) / 512) % 512 == arg && deref(inst) / 262144 == old(deref(inst)) / 262144 && deref(inst) % 512 == old(deref(inst)) % 512
+//@ modifies *inst
+
+//@ func opSetArgBx [C01 C07]
+//@ requires 0 <= arg && arg <= 262143
+//@ noraise
+//@ ensures  deref(inst) % 262144 == arg && deref(inst) / 262144 == old(deref(inst)) / 262144
+//@ modifies *inst
+
+//@ func opSetArgSbx [C01 C07]
+//@ requires -131071 <= arg && arg <= 131072
+//@ noraise
+//@ ensures  deref(inst) % 262144 - 131071 == arg && deref(inst) / 262144 == old(deref(inst)) / 262144
+//@ modifies *inst
+
+//@ func opCreateABC [C01 C07]
+//@ requires 0 <= op && op <= 63 && 0 <= a && a <= 255 && 0 <= b && b <= 511 && 0 <= c && c <= 511
+//@ noraise
+//@ ensures  opGetOpCode(result) == op && opGetArgA(result) == a && opGetArgB(result) == b && opGetArgC(result) == c
+//@ modifies nothing
+
+//@ func opCreateABx [C01 C07]
+//@ requires 0 <= op && op <= 63 && 0 <= a && a <= 255 && 0 <= bx && bx <= 262143
+//@ noraise
+//@ ensures  opGetOpCode(result) == op && opGetArgA(result) == a && opGetArgBx(result) == bx
+//@ modifies nothing
+
+//@ func opCreateASbx [C01 C07]
+//@ requires 0 <= op && op <= 63 && 0 <= a && a <= 255 && -131071 <= sbx && sbx <= 131072
+//@ noraise
+//@ ensures  opGetOpCode(result) == op && opGetArgA(result) == a && opGetArgSbx(result) == sbx
+//@ modifies nothing
+
+//@ func opIsK [C01 C07]
+//@ noraise
+//@ ensures  0 <= value && value <= 255 ==> !result
+//@ ensures  256 <= value && value <= 511 ==> result
+//@ modifies nothing
+
+//@ func opIndexK [C01 C07]
+//@ noraise
+//@ ensures  256 <= value && value <= 511 ==> result == value - 256
+//@ ensures  0 <= value && value <= 255 ==> result == value
+//@ modifies nothing
+
+//@ func opRkAsk [C01 C07]
+//@ noraise
+//@ ensures  0 <= value && value <= 255 ==> result == value + 256
+//@ modifies nothing
